@@ -75,7 +75,7 @@ func (g *Gen) GenFunc(key string) (res *FnResult) {
 	// requires
 	path := key
 	if con != nil {
-		env := &SpecEnv{G: g, Pkg: fn.Pkg.Pkg, Vars: map[string]SV{}, Cur: st, Old: st, Next0: st.next}
+		env := &SpecEnv{G: g, Pkg: fn.Pkg.Pkg, Vars: map[string]SV{}, Cur: st, Old: st, Next0: st.next, FnScope: fnScope(fn)}
 		for i, p := range fn.Params {
 			env.Vars[p.Name()] = SV{Term: args[i].T, Typ: p.Type()}
 		}
